@@ -158,7 +158,12 @@ def _ir_tables(ctx, repo):
             ok = ar is not None and all(0 < i < ar for i in idx)
             ctx.ob("C05-R3", fq, f"tag '{tag}': tuple arity {ar} covers the indices used {sorted(set(idx))}", ok, node=d["node"], construct=f"{name} '{tag}' arity")
             if d["ops"] is not None:
-                declines = any(isinstance(n, ast.If) and "is None" in src(n.test) and any(isinstance(r, ast.Return) and isinstance(r.value, ast.Constant) and r.value.value is None for r in n.body)
+                # the variable bound to the table lookup (`x = {...}.get(op)`) and an `if x is None: return None` on it
+                lk = [n.targets[0].id for s in d["node"].body for n in walk_local(s) if isinstance(n, ast.Assign) and isinstance(n.targets[0], ast.Name) and
+                      isinstance(n.value, ast.Call) and isinstance(n.value.func, ast.Attribute) and n.value.func.attr == "get" and
+                      (isinstance(n.value.func.value, ast.Dict) or isinstance(n.value.func.value, ast.Name))]
+                declines = any(isinstance(n, ast.If) and any(src(n.test) == f"{v} is None" for v in lk) and
+                               any(isinstance(r, ast.Return) and isinstance(r.value, ast.Constant) and r.value.value is None for r in n.body)
                                for s in d["node"].body for n in walk_local(s))
                 admitted = {"binop": opsets.get("_ARITH_OPS", set()), "cmp": opsets.get("_CMP_OPS", set()), "reduce": opsets.get("_REDUCE_SCAN_OPS", set()), "scan": opsets.get("_REDUCE_SCAN_OPS", set())}.get(tag, set())
                 missing = admitted - set(d["ops"])
